@@ -101,6 +101,56 @@ def run(ctx):
             if canon_out(vr) != fresh_cache[kv]:
                 ctx.violation("history:validator", "a reused Validator answers differently from a fresh one (version %r)" % ver, {"history": hist[:step + 1], "version": ver})
                 break
+    # ---- directed histories on one reused comments parser: documents whose comments stay unattached (after the last
+    # keyword, after END, at the end of the file) followed by documents with nodes on those lines - every ordered
+    # pair and triple of the pool against fresh objects
+    cpool = ["MAP\n NAME 'a'\nEND\n# dangling after end\n", "MAP\n NAME 'a'\n# dangling before end\nEND\n",
+             "MAP\n\n\n LAYER\n  NAME 'l'\n  TYPE POINT\n END\nEND\n", "# head\nMAP # m\n NAME 'c' # n\nEND\n",
+             "MAP\n NAME 'x'\n WEB\n  METADATA\n   'k' 'v' # kv\n  END\n END\n /* tail */\nEND\n", "LAYER\n TYPE POINT\n CLASS\n  NAME 'c'\n END\nEND\n"]
+    import itertools
+    seqs = list(itertools.permutations(range(len(cpool)), 2)) + [s3 for s3 in itertools.permutations(range(len(cpool)), 3)][::ctx.budget(6, 1)]
+    fresh_c = {}
+    for ip in (False, True):
+        P = Parser(expand_includes=False, include_comments=True)
+        M = MapfileToDict(include_position=ip, include_comments=True)
+        for seq in seqs:
+            ctx.note_case(("comment-history", ip, seq), nontrivial=True)
+            for step, i in enumerate(seq):
+                t = cpool[i]
+                reused = canon_out(outcome(lambda: M.transform(P.parse(t))))
+                if (i, ip) not in fresh_c:
+                    fresh_c[(i, ip)] = canon_out(outcome(lambda: MapfileToDict(include_position=ip, include_comments=True).transform(
+                        Parser(expand_includes=False, include_comments=True).parse(t))))
+                if reused != fresh_c[(i, ip)]:
+                    ctx.violation("history:parser-or-transformer", "a reused comments Parser/MapfileToDict gives another result than fresh objects at step %d of a directed history" % step,
+                                  {"history": [cpool[j] for j in seq[:step + 1]], "include_comments": True, "include_position": ip})
+                    break
+            else:
+                continue
+            break
+    # ---- directed purity of validate: every kind of error location (root, object in a list, nested singleton, keyword,
+    # item of a list-valued keyword, repeatable keyword) with and without recorded positions, through the public entry
+    # point and a reused Validator, twice in a row
+    faulty = ["MAP\n LAYER\n  NAME 'a'\n END\nEND", "MAP LAYER TYPE POINT CLASS NOSUCH 1 END END END", "MAP NOSUCH 1 END", "MAP WEB NOSUCH 1 END END",
+              "MAP SIZE 10.5 20 END", "MAP LAYER TYPE POINT PROCESSING 5 END END", "MAP LAYER TYPE bad END LAYER NAME 'b' END END",
+              "MAP LAYER TYPE POINT CLASS STYLE COLOR 1 2 300 END END END END", "MAP NAME 'fine' END"]
+    Vr = Validator()
+    for t in faulty:
+        for ip in (False, True):
+            for ver in (None, 8.0):
+                ctx.note_case(("validate-purity", t, ip, ver))
+                try:
+                    d = mappyfile.loads(t, expand_includes=False, include_position=ip)
+                except Exception:
+                    continue
+                before = snapshot(d)
+                r1 = canon_out(outcome(lambda: mappyfile.validate(d, version=ver)))
+                mid = snapshot(d)
+                r2 = canon_out(outcome(lambda: Vr.validate(d, version=ver)))
+                if mid != before or snapshot(d) != before:
+                    ctx.violation("purity:validate", "validate (add_comments off) modified its argument", {"text": t, "version": ver, "include_position": ip})
+                elif r1 != r2:
+                    ctx.violation("history:validator", "validating the same dictionary again (reused Validator) answers differently (version %r)" % ver, {"text": t, "version": ver, "include_position": ip})
     # ---- purity of the query helpers on dictionaries that HAVE the key (lacking keys: C18's known finding)
     for t in gens[:ctx.budget(20, 40)]:
         try:
